@@ -27,7 +27,7 @@ RULE = ("ParameterGrid laws, exhaustive: every grid made of 1..G sub-grids (G=2 
         "malformed grids (scalar, string, empty list, 2-D array, non-dict) are rejected. execute/resolve, model-based: a "
         "scripted optimizer logs every optimize() call (its current parameters, task, mode, workers) to an append-only "
         "file and returns a best cost taken from a Hypothesis-drawn score table S[point][trial] (small dyadics with ties "
-        "between means and differing variances, and tables whose means differ by steps of 1e-7); grids <= 12 points, n_trials 1..4, n_jobs 1..4, min and max tasks, all "
+        "between means and differing variances, and tables whose means differ by steps of 1e-7); grids <= 12 points, n_trials 1..4 (one case in four: 9..12), n_jobs 1..4, min and max tasks, all "
         "modes; one case in four first runs another execute() on the same tuner (another task whose scores would win if anything leaked). Oracle: the log holds every grid point exactly n_trials times with exactly that point's parameters; "
         "_df_fit has one row per point whose trial columns are a permutation of S[point]; best_parameters is a grid point "
         "whose mean is optimal in the task's direction (any optimal point accepted) and best_score equals that mean; "
@@ -136,7 +136,7 @@ def exec_case(draw):
     for _ in range(n_sub):
         ks = draw(st.lists(st.sampled_from(KEYS), min_size=0, max_size=2, unique=True))
         shapes.append({k: draw(st.integers(1, 3)) for k in ks})
-    n_trials = draw(st.integers(1, 4))
+    n_trials = draw(st.one_of(st.integers(1, 4), st.integers(1, 4), st.integers(1, 4), st.integers(9, 12)))
     pts = sum(math.prod(s.values()) if s else 1 for s in shapes)
     score = st.sampled_from([0.0, 1.0, 2.0, 3.0, -1.0, -2.5, 0.5, 10.0, 2.25])
     table = [[draw(score) for _ in range(n_trials + 1)] for _ in range(pts)]
